@@ -627,6 +627,10 @@ pub trait _UnwindSectionPrivate<R: Reader> {
     /// underflows, return `None`.
     fn resolve_cie_offset(&self, base: R::Offset, offset: R::Offset) -> Option<R::Offset>;
 
+    /// Returns true if the CIE offset of an FDE is an offset from the start of the
+    /// section (and hence may have a relocation), as opposed to a relative offset.
+    fn has_section_cie_offset() -> bool;
+
     /// Does this version of this unwind section encode address and segment
     /// sizes in its CIEs?
     fn has_address_and_segment_sizes(version: u8) -> bool;
@@ -818,6 +822,10 @@ impl<R: Reader> _UnwindSectionPrivate<R> for DebugFrame<R> {
         Some(offset)
     }
 
+    fn has_section_cie_offset() -> bool {
+        true
+    }
+
     fn has_address_and_segment_sizes(version: u8) -> bool {
         version == 4
     }
@@ -856,6 +864,10 @@ impl<R: Reader> _UnwindSectionPrivate<R> for EhFrame<R> {
 
     fn resolve_cie_offset(&self, base: R::Offset, offset: R::Offset) -> Option<R::Offset> {
         base.checked_sub(offset)
+    }
+
+    fn has_section_cie_offset() -> bool {
+        false
     }
 
     fn has_address_and_segment_sizes(_version: u8) -> bool {
@@ -1136,10 +1148,18 @@ where
 
     let mut rest = input.split(length)?;
     let cie_offset_base = rest.offset_from(section.section());
-    let cie_id_or_offset = match Section::cie_offset_encoding(format) {
-        CieOffsetEncoding::U32 => rest.read_u32().map(u64::from)?,
-        CieOffsetEncoding::U64 => rest.read_u64()?,
+    let mut after_id = rest.clone();
+    let mut cie_id_or_offset = match Section::cie_offset_encoding(format) {
+        CieOffsetEncoding::U32 => after_id.read_u32().map(u64::from)?,
+        CieOffsetEncoding::U64 => after_id.read_u64()?,
     };
+    if Section::has_section_cie_offset() && !Section::is_cie(format, cie_id_or_offset) {
+        // The CIE pointer of a `.debug_frame` FDE is an offset into the section,
+        // so it must be read as an offset for relocating readers to see it.
+        cie_id_or_offset = rest.read_offset(format)?.into_u64();
+    } else {
+        rest = after_id;
+    }
 
     Ok(Some(CfiEntryPrefix {
         offset,
